@@ -279,7 +279,7 @@ func (r *Report) emitPartial() {
 		fmt.Fprintf(os.Stderr, "partial marshal: %v\n", err)
 		os.Exit(2)
 	}
-	os.Stdout.Write([]byte("PARTIAL "))
+	os.Stdout.Write([]byte("\nPARTIAL "))
 	os.Stdout.Write(data)
 	os.Stdout.Write([]byte("\n"))
 	os.Exit(0)
@@ -310,13 +310,16 @@ func (r *Report) RunWorkers(n int, extraArgs ...string) {
 		x := <-ch
 		var p partial
 		found := false
-		for _, line := range bytes.Split(x.out, []byte("\n")) {
-			if bytes.HasPrefix(line, []byte("PARTIAL ")) {
-				if err := json.Unmarshal(line[8:], &p); err != nil {
-					r.Broken("worker %d: bad partial: %v", x.k, err)
-				}
-				found = true
+		// the code under test may print to stdout: take the last PARTIAL record wherever it starts
+		if i := bytes.LastIndex(x.out, []byte("PARTIAL {")); i >= 0 {
+			line := x.out[i+8:]
+			if j := bytes.IndexByte(line, '\n'); j >= 0 {
+				line = line[:j]
 			}
+			if err := json.Unmarshal(line, &p); err != nil {
+				r.Broken("worker %d: bad partial: %v", x.k, err)
+			}
+			found = true
 		}
 		if !found {
 			tail := x.out
